@@ -14,6 +14,7 @@ package main
 
 import (
 	"context"
+	"encoding/json"
 	"slices"
 	"strings"
 
@@ -53,6 +54,71 @@ func (b c15Base) GetPrivateClaimsFromScopes(ctx context.Context, userID, clientI
 type c15TEPart struct {
 	refstore.TEPart
 	trust bool // deep4: the TRUSTING policy (as the repository's example storage): no lookup of the presented access token's id
+	// deep5: the policy's decision about the `act` member (c15PolicyAct) and the journal of what the two claims hooks answered
+	act string
+	j   *c15Journal
+}
+
+// c15Journal (deep5): what the exchange storage's claims hooks answered for the request at hand - the `act` value the POLICY decided
+// (canonical JSON, "" = no act member), and which hook was asked last.
+type c15Journal struct {
+	Asked bool
+	Hook  string // "claims" (GetPrivateClaimsFromTokenExchangeRequest) | "userinfo" (SetUserinfoFromTokenExchangeRequest)
+	Act   string
+}
+
+// the exchange storage's policies for the `act` member of the issued token (deep5). The party to be named is the resolved actor
+// (delegation), or - impersonation by scope, no actor token - the party whose token the exchange rests on (as the repository's example):
+//
+//	flat     {"sub": who}                                       (rounds 3-4: the only policy)
+//	chain    {"sub": who, "act": {"sub": "gw", "act": {"sub": "prior:<exchange subject>"}}}   a nested delegation chain (RFC 8693 4.1)
+//	pairwise {"sub": "pw:<client>:<who>"}                       a pairwise / renamed actor identifier: the internal subject is not disclosed
+//	extra    {"sub": who, "client_id": <client>, "amr": ["mfa"]} further members inside act
+//	none     no act member at all                                (what example/server/storage decides for a delegation)
+var c15ActModes = []string{"flat", "chain", "pairwise", "extra", "none"}
+
+func c15PolicyAct(mode string, r op.TokenExchangeRequest) map[string]any {
+	who := r.GetExchangeActor()
+	if who == "" {
+		if !slices.ContainsFunc(r.GetScopes(), func(s string) bool { return strings.HasPrefix(s, refstore.ImpersonateScopePrefix) }) {
+			return nil
+		}
+		who = r.GetExchangeSubject()
+	}
+	switch mode {
+	case "none":
+		return nil
+	case "chain":
+		return map[string]any{"sub": who, "act": map[string]any{"sub": "gw", "act": map[string]any{"sub": "prior:" + r.GetExchangeSubject()}}}
+	case "pairwise":
+		return map[string]any{"sub": "pw:" + r.GetClientID() + ":" + who}
+	case "extra":
+		return map[string]any{"sub": who, "client_id": r.GetClientID(), "amr": []any{"mfa"}}
+	}
+	return map[string]any{"sub": who}
+}
+
+// c15Canon: a JSON value in canonical form (object keys sorted, no blanks); "" for an absent value
+func c15Canon(v any) string {
+	if v == nil {
+		return ""
+	}
+	if m, ok := v.(map[string]any); ok && m == nil {
+		return ""
+	}
+	b, err := json.Marshal(v)
+	if err != nil {
+		return "unmarshalable"
+	}
+	return string(b)
+}
+
+func (p c15TEPart) decide(hook string, r op.TokenExchangeRequest, set func(v map[string]any)) {
+	act := c15PolicyAct(p.act, r)
+	set(act)
+	if p.j != nil {
+		*p.j = c15Journal{Asked: true, Hook: hook, Act: c15Canon(act)}
+	}
 }
 
 // ValidateTokenExchangeRequest: the reference policy, or - trusting - the same policy WITHOUT the liveness lookup of an access token's id:
@@ -94,12 +160,6 @@ func (p c15TEPart) ValidateTokenExchangeRequest(ctx context.Context, r op.TokenE
 	return nil
 }
 
-func c15DelegationActor(r op.TokenExchangeRequest, add func(k string, v any)) {
-	if r.GetExchangeActor() != "" {
-		add("act", map[string]any{"sub": r.GetExchangeActor()})
-	}
-}
-
 func (p c15TEPart) GetPrivateClaimsFromTokenExchangeRequest(ctx context.Context, r op.TokenExchangeRequest) (map[string]any, error) {
 	claims, err := p.TEPart.GetPrivateClaimsFromTokenExchangeRequest(ctx, r)
 	if err != nil {
@@ -108,7 +168,12 @@ func (p c15TEPart) GetPrivateClaimsFromTokenExchangeRequest(ctx context.Context,
 	if claims == nil {
 		claims = map[string]any{}
 	}
-	c15DelegationActor(r, func(k string, v any) { claims[k] = v })
+	p.decide("claims", r, func(v map[string]any) {
+		delete(claims, "act")
+		if v != nil {
+			claims["act"] = v
+		}
+	})
 	claims[c15SrcClaim] = "exchange"
 	return claims, nil
 }
@@ -117,7 +182,12 @@ func (p c15TEPart) SetUserinfoFromTokenExchangeRequest(ctx context.Context, user
 	if err := p.TEPart.SetUserinfoFromTokenExchangeRequest(ctx, userinfo, r); err != nil {
 		return err
 	}
-	c15DelegationActor(r, userinfo.AppendClaims)
+	p.decide("userinfo", r, func(v map[string]any) {
+		delete(userinfo.Claims, "act")
+		if v != nil {
+			userinfo.AppendClaims("act", v)
+		}
+	})
 	userinfo.AppendClaims(c15UISrcClaim, "exchange")
 	return nil
 }
@@ -153,7 +223,11 @@ func (p c15UIPart) SetUserinfoFromRequest(ctx context.Context, userinfo *oidc.Us
 }
 
 // c15Caps: which of the four optional interfaces the storage value implements.
-type c15Caps struct{ TE, TEV, PC, UI, Trust bool }
+type c15Caps struct {
+	TE, TEV, PC, UI, Trust bool
+	Act                    string      // deep5: the exchange storage's act policy (c15ActModes; "" = flat)
+	J                      *c15Journal // deep5: where the claims hooks record what they answered
+}
 
 func (c c15Caps) mask() (m int) {
 	for i, b := range []bool{c.TE, c.TEV, c.PC, c.UI} {
@@ -287,35 +361,35 @@ func c15Storage(s *refstore.Store, c c15Caps) op.Storage {
 	case 0:
 		return c15Store00{c15Base{s}, refstore.CCPart{S: s}, refstore.DevicePart{S: s}}
 	case 1:
-		return c15Store01{c15Base{s}, refstore.CCPart{S: s}, refstore.DevicePart{S: s}, c15TEPart{refstore.TEPart{S: s}, c.Trust}}
+		return c15Store01{c15Base{s}, refstore.CCPart{S: s}, refstore.DevicePart{S: s}, c15TEPart{refstore.TEPart{S: s}, c.Trust, c.Act, c.J}}
 	case 2:
 		return c15Store02{c15Base{s}, refstore.CCPart{S: s}, refstore.DevicePart{S: s}, refstore.TEVerifierPart{S: s}}
 	case 3:
-		return c15Store03{c15Base{s}, refstore.CCPart{S: s}, refstore.DevicePart{S: s}, c15TEPart{refstore.TEPart{S: s}, c.Trust}, refstore.TEVerifierPart{S: s}}
+		return c15Store03{c15Base{s}, refstore.CCPart{S: s}, refstore.DevicePart{S: s}, c15TEPart{refstore.TEPart{S: s}, c.Trust, c.Act, c.J}, refstore.TEVerifierPart{S: s}}
 	case 4:
 		return c15Store04{c15Base{s}, refstore.CCPart{S: s}, refstore.DevicePart{S: s}, c15PCPart{s}}
 	case 5:
-		return c15Store05{c15Base{s}, refstore.CCPart{S: s}, refstore.DevicePart{S: s}, c15TEPart{refstore.TEPart{S: s}, c.Trust}, c15PCPart{s}}
+		return c15Store05{c15Base{s}, refstore.CCPart{S: s}, refstore.DevicePart{S: s}, c15TEPart{refstore.TEPart{S: s}, c.Trust, c.Act, c.J}, c15PCPart{s}}
 	case 6:
 		return c15Store06{c15Base{s}, refstore.CCPart{S: s}, refstore.DevicePart{S: s}, refstore.TEVerifierPart{S: s}, c15PCPart{s}}
 	case 7:
-		return c15Store07{c15Base{s}, refstore.CCPart{S: s}, refstore.DevicePart{S: s}, c15TEPart{refstore.TEPart{S: s}, c.Trust}, refstore.TEVerifierPart{S: s}, c15PCPart{s}}
+		return c15Store07{c15Base{s}, refstore.CCPart{S: s}, refstore.DevicePart{S: s}, c15TEPart{refstore.TEPart{S: s}, c.Trust, c.Act, c.J}, refstore.TEVerifierPart{S: s}, c15PCPart{s}}
 	case 8:
 		return c15Store08{c15Base{s}, refstore.CCPart{S: s}, refstore.DevicePart{S: s}, c15UIPart{refstore.UserinfoFromReqPart{S: s}}}
 	case 9:
-		return c15Store09{c15Base{s}, refstore.CCPart{S: s}, refstore.DevicePart{S: s}, c15TEPart{refstore.TEPart{S: s}, c.Trust}, c15UIPart{refstore.UserinfoFromReqPart{S: s}}}
+		return c15Store09{c15Base{s}, refstore.CCPart{S: s}, refstore.DevicePart{S: s}, c15TEPart{refstore.TEPart{S: s}, c.Trust, c.Act, c.J}, c15UIPart{refstore.UserinfoFromReqPart{S: s}}}
 	case 10:
 		return c15Store10{c15Base{s}, refstore.CCPart{S: s}, refstore.DevicePart{S: s}, refstore.TEVerifierPart{S: s}, c15UIPart{refstore.UserinfoFromReqPart{S: s}}}
 	case 11:
-		return c15Store11{c15Base{s}, refstore.CCPart{S: s}, refstore.DevicePart{S: s}, c15TEPart{refstore.TEPart{S: s}, c.Trust}, refstore.TEVerifierPart{S: s}, c15UIPart{refstore.UserinfoFromReqPart{S: s}}}
+		return c15Store11{c15Base{s}, refstore.CCPart{S: s}, refstore.DevicePart{S: s}, c15TEPart{refstore.TEPart{S: s}, c.Trust, c.Act, c.J}, refstore.TEVerifierPart{S: s}, c15UIPart{refstore.UserinfoFromReqPart{S: s}}}
 	case 12:
 		return c15Store12{c15Base{s}, refstore.CCPart{S: s}, refstore.DevicePart{S: s}, c15PCPart{s}, c15UIPart{refstore.UserinfoFromReqPart{S: s}}}
 	case 13:
-		return c15Store13{c15Base{s}, refstore.CCPart{S: s}, refstore.DevicePart{S: s}, c15TEPart{refstore.TEPart{S: s}, c.Trust}, c15PCPart{s}, c15UIPart{refstore.UserinfoFromReqPart{S: s}}}
+		return c15Store13{c15Base{s}, refstore.CCPart{S: s}, refstore.DevicePart{S: s}, c15TEPart{refstore.TEPart{S: s}, c.Trust, c.Act, c.J}, c15PCPart{s}, c15UIPart{refstore.UserinfoFromReqPart{S: s}}}
 	case 14:
 		return c15Store14{c15Base{s}, refstore.CCPart{S: s}, refstore.DevicePart{S: s}, refstore.TEVerifierPart{S: s}, c15PCPart{s}, c15UIPart{refstore.UserinfoFromReqPart{S: s}}}
 	case 15:
-		return c15Store15{c15Base{s}, refstore.CCPart{S: s}, refstore.DevicePart{S: s}, c15TEPart{refstore.TEPart{S: s}, c.Trust}, refstore.TEVerifierPart{S: s}, c15PCPart{s}, c15UIPart{refstore.UserinfoFromReqPart{S: s}}}
+		return c15Store15{c15Base{s}, refstore.CCPart{S: s}, refstore.DevicePart{S: s}, c15TEPart{refstore.TEPart{S: s}, c.Trust, c.Act, c.J}, refstore.TEVerifierPart{S: s}, c15PCPart{s}, c15UIPart{refstore.UserinfoFromReqPart{S: s}}}
 	}
 	panic("unreachable")
 }
